@@ -68,6 +68,29 @@ def manifestOps (st : St) (op k n sc : String) : Resp :=
       { model := if outs.isEmpty then "-" else ",".intercalate outs,
         spec := if inRange then (if want.isEmpty then "-" else ",".intercalate want) else "-" }
 
+/-! ### stream 4: sketches derived from a sketch
+
+`KmerMinHash::from(tree)`, `KmerMinHash::from(&tree)` and `KmerMinHashBTree::from(vec)` all build the new
+sketch with `new(other.scaled(), …)`: the ceiling is re-derived, `m ↦ max_hash_for_scaled(scaled_for_max_hash(m))`.
+`Clone`, the serde round trips, wrapping in `Sketch` / `Signature` and the C API handles copy the field. -/
+
+def reDerive (m : Nat) : Nat := maxHashForScaled (scaledForMaxHash m)
+
+/-- number of `From` conversions a route performs (`signature_first_mh` converts a tree sketch by
+    reference and clones a vector sketch; `from_params` builds tree sketches) -/
+def routeHops (route : String) : Option Nat :=
+  if ["v2t", "t2v", "t2vr", "tcfirst", "cfp"].contains route then some 1
+  else if ["v2t2v", "t2v2t", "t2vr2t"].contains route then some 2
+  else if ["vclone", "tclone", "vserde", "tserde", "vsig", "tsig", "vsigjson", "tsigjson", "vcfirst", "cnew",
+           "cpush"].contains route then some 0
+  else none
+
+/-- routes that go through `Deserialize` (which zeroes `num` when the ceiling is non-zero) -/
+def routeLoads (route : String) : Bool := ["vserde", "tserde", "vsigjson", "tsigjson"].contains route
+
+def derivedMaxHash (route : String) (m : Nat) : Option Nat :=
+  (routeHops route).map (fun n => (List.range n).foldl (fun m _ => reDerive m) m)
+
 def stepC14 (s : St) (ws : List String) : St × Resp :=
   match ws with
   | "case" :: _ => ([], { model := "ok" })
@@ -75,6 +98,27 @@ def stepC14 (s : St) (ws : List String) : St × Resp :=
     let sc := sc.toNat!
     (s ++ [(k.toNat!, sc, n.toNat!)],
      { model := toString (scaledForMaxHash (maxHashForScaled sc)), spec := if sc ≤ pow31 then toString sc else "-" })
+  -- a sketch created at `sc` with size bound `num`, pushed through a route: the derived sketch reports `sc`
+  | ["conv", route, sc, _] =>
+    let sc := sc.toNat!
+    match derivedMaxHash route (maxHashForScaled sc) with
+    | none => (s, { model := "bad-op" })
+    | some m => (s, { model := toString (scaledForMaxHash m), spec := if sc ≤ pow31 then toString sc else "-" })
+  | ["convx", route, sc, num] =>
+    let sc := sc.toNat!; let num := num.toNat!
+    match derivedMaxHash route (maxHashForScaled sc) with
+    | none => (s, { model := "bad-op" })
+    | some m =>
+      let num' := if routeLoads route && maxHashForScaled sc != 0 then 0 else num
+      (s, { model := "mh=" ++ toString m ++ " num=" ++ toString num' })
+  -- a sketch loaded with an arbitrary ceiling: no created-at value, so the property says nothing;
+  -- the model column records what the conversions do to it
+  | ["convmh", route, m] =>
+    let m := m.toNat!
+    if route.startsWith "c" then (s, { model := "bad-op" }) else
+    match derivedMaxHash route m with
+    | none => (s, { model := "bad-op" })
+    | some m' => (s, { model := "mh=" ++ toString m' ++ " scaled=" ++ toString (scaledForMaxHash m') })
   | ["msel", k, n, sc] => (s, manifestOps s "msel" k n sc)
   | ["mcsel", k, n, sc] => (s, manifestOps s "mcsel" k n sc)
   | ["mload", k, n, sc] => (s, manifestOps s "mload" k n sc)
